@@ -19,7 +19,7 @@ from .inline import _stmt, _term, _place, _operand
 
 RESULT = 'std::result::Result'
 OPTION = 'std::option::Option'
-COMB = re.compile(r'^std::(result::Result::<T, E>|option::Option::<T>)::(map|map_err|and_then|or_else|unwrap_or_else|is_ok_and|is_some_and|map_or|ok_or_else|filter)$')
+COMB = re.compile(r'^std::(result::Result::<T, E>|option::Option::<T>)::(map|map_err|and_then|or_else|unwrap_or_else|is_ok_and|is_some_and|map_or|map_or_else|ok_or_else|filter)$')
 ADAPTORS = re.compile(r'Iterator::(map|filter|filter_map|flat_map|for_each|any|all|position|find|find_map|take_while|skip_while|map_while|inspect|fold|try_for_each)$'
                       r'|::(retain|retain_mut|sort_by_key|sort_by|dedup_by_key|partition)$|ParallelIterator::(map|filter|filter_map|for_each|flat_map)$')
 
@@ -147,6 +147,109 @@ def _closure_of(unit, body_raw, operand):
     return (cb.raw if cb is not None else None), cp
 
 
+def _split_tuples(raw):
+    """`match (a, b) { (Ok(x), Some(y)) => .. }` builds a tuple only to take it apart: where a tuple is built once and then only read through
+    its components, each component becomes a variable of its own (`_t = (a, b)` -> `_t0 = a; _t1 = b`, `(_t.i).rest` -> `_ti.rest`)"""
+    n = 0
+    builds = {}
+    for blk in raw['blocks']:
+        for st in blk['stmts']:
+            if not st['p'][1] and st['rv'].get('k') == 'agg' and st['rv'].get('ak') == 'tuple' and st['rv'].get('ops'):
+                builds.setdefault(st['p'][0], []).append(st)
+    cand = {l: v[0] for l, v in builds.items() if len(v) == 1}
+    if not cand:
+        return 0
+
+    def places_of(blk):
+        for st in blk['stmts']:
+            yield st['p'], ('dest', st)
+            rv = st['rv']
+            for kk in ('op', 'a', 'b'):
+                o = rv.get(kk)
+                if isinstance(o, dict) and ('c' in o or 'm' in o):
+                    yield (o.get('c') or o.get('m')), ('op', o)
+            for o in rv.get('ops', []) or []:
+                if isinstance(o, dict) and ('c' in o or 'm' in o):
+                    yield (o.get('c') or o.get('m')), ('op', o)
+            if isinstance(rv.get('p'), list):
+                yield rv['p'], ('rvp', rv)
+        t = blk['term']
+        if t['k'] == 'call':
+            for a in t['args']:
+                if 'c' in a or 'm' in a:
+                    yield (a.get('c') or a.get('m')), ('op', a)
+            yield t['dest'], ('cdest', t)
+        elif t['k'] == 'switch':
+            o = t['op']
+            if 'c' in o or 'm' in o:
+                yield (o.get('c') or o.get('m')), ('op', o)
+        elif t['k'] == 'drop':
+            yield t['p'], ('drop', t)
+    # every use of the tuple goes through a component
+    for blk in raw['blocks']:
+        for p, (kind, holder) in places_of(blk):
+            if p[0] in cand:
+                if kind == 'dest' and holder is cand[p[0]]:
+                    continue
+                if kind == 'drop':
+                    continue
+                e0 = p[1][0] if p[1] else None
+                if not (isinstance(e0, list) and e0[0] == 'F' and isinstance(e0[1], int)):
+                    cand.pop(p[0], None)
+    if not cand:
+        return 0
+    comp = {}
+    for l, st in cand.items():
+        comp[l] = []
+        for i, o in enumerate(st['rv']['ops']):
+            raw['locals'].append({'ty': '?', 'name': None})
+            comp[l].append(len(raw['locals']) - 1)
+
+    def fix(p):
+        if p[0] in comp and p[1] and isinstance(p[1][0], list) and p[1][0][0] == 'F' and p[1][0][1] < len(comp[p[0]]):
+            return [comp[p[0]][p[1][0][1]], p[1][1:]]
+        return p
+    for blk in raw['blocks']:
+        new_stmts = []
+        for st in blk['stmts']:
+            if st['p'][0] in cand and cand[st['p'][0]] is st:
+                for i, o in enumerate(st['rv']['ops']):
+                    new_stmts.append({'p': [comp[st['p'][0]][i], []], 'rv': {'k': 'use', 'op': o}, 'line': st.get('line', 0), 'exp': False})
+                n += 1
+                continue
+            st['p'] = fix(st['p'])
+            rv = st['rv']
+            for kk in ('op', 'a', 'b'):
+                o = rv.get(kk)
+                if isinstance(o, dict):
+                    for k2 in ('c', 'm'):
+                        if k2 in o:
+                            o[k2] = fix(o[k2])
+            for o in rv.get('ops', []) or []:
+                if isinstance(o, dict):
+                    for k2 in ('c', 'm'):
+                        if k2 in o:
+                            o[k2] = fix(o[k2])
+            if isinstance(rv.get('p'), list):
+                rv['p'] = fix(rv['p'])
+            new_stmts.append(st)
+        blk['stmts'] = new_stmts
+        t = blk['term']
+        if t['k'] == 'call':
+            for a in t['args']:
+                for k2 in ('c', 'm'):
+                    if k2 in a:
+                        a[k2] = fix(a[k2])
+            t['dest'] = fix(t['dest'])
+        elif t['k'] == 'switch':
+            for k2 in ('c', 'm'):
+                if k2 in t['op']:
+                    t['op'][k2] = fix(t['op'][k2])
+        elif t['k'] == 'drop' and t['p'][0] in comp:
+            t['p'] = [comp[t['p'][0]][0], []]
+    return n
+
+
 def desugared(unit, body, adaptors=False, _cache={}):
     key = (id(unit), body.path, adaptors)
     if key in _cache:
@@ -183,7 +286,7 @@ def desugared(unit, body, adaptors=False, _cache={}):
                 yes_v, no_v = ('Ok', 'Err') if is_res else ('Some', 'None')
                 yes_i, no_i = (0, 1) if is_res else (1, 0)
                 # which variant the closure runs on
-                on_yes = meth in ('map', 'and_then', 'is_ok_and', 'is_some_and', 'map_or', 'filter')
+                on_yes = meth in ('map', 'and_then', 'is_ok_and', 'is_some_and', 'map_or', 'map_or_else', 'filter')
                 if is_res and meth in ('map_err', 'or_else', 'unwrap_or_else'):
                     on_yes = False
                 if (not is_res) and meth in ('or_else', 'unwrap_or_else', 'ok_or_else'):
@@ -217,6 +320,16 @@ def desugared(unit, body, adaptors=False, _cache={}):
                 elif meth == 'map_or':
                     after = finish(use([res, []]))
                     other = finish({'k': 'use', 'op': t['args'][1]})
+                elif meth == 'map_or_else':
+                    # two closures: the default one runs on Err(e) / None, the other on the payload
+                    after = finish(use([res, []]))
+                    draw, dcp = _closure_of(unit, raw, t['args'][1])
+                    if draw is None:
+                        continue
+                    res2 = bld.local(draw['locals'][0]['ty'])
+                    after2 = finish(use([res2, []]))
+                    other = _splice_closure(bld, draw, t['args'][1], [{'m': pay_no}] if pay_no is not None else [], [res2, []], after2, line)
+                    consumed.append(dcp)
                 elif meth == 'ok_or_else':
                     after = finish(_agg(RESULT, 'Err', [{'m': [res, []]}]))
                     other = finish(_agg(RESULT, 'Ok', [{'m': pay_yes}]))
@@ -276,6 +389,8 @@ def desugared(unit, body, adaptors=False, _cache={}):
                     break
     for blk in raw['blocks']:
         blk.pop('_spliced', None)
+    if _split_tuples(raw):
+        consumed.append('(tuple scrutinee)')
     if consumed:
         from .inline import thread_known_variants
         for _ in range(3):
